@@ -25,6 +25,13 @@ VARIANTS: list[tuple[str, dict, dict]] = [
     ("use_annotated", {"field_constraints": True, "use_annotated": True}, {}),
     ("reuse_model", {"reuse_model": True}, {}),
     ("collapse_root_models", {"collapse_root_models": True}, {}),
+    # reviewed combinations: options whose passes interact (collapsing merges a root type's constraints into the
+    # field only under field_constraints; reuse runs before collapse; the three ways of writing a constrained Optional)
+    ("collapse_root_models+field_constraints", {"collapse_root_models": True, "field_constraints": True}, {}),
+    ("collapse_root_models+use_annotated", {"collapse_root_models": True, "field_constraints": True, "use_annotated": True}, {}),
+    ("use_annotated+use_union_operator", {"field_constraints": True, "use_annotated": True, "use_union_operator": True}, {}),
+    ("reuse_model+collapse_root_models", {"reuse_model": True, "collapse_root_models": True}, {}),
+    ("keep_model_order+reuse_model", {"keep_model_order": True, "reuse_model": True}, {}),
 ]
 CONSTRAINT_KEYWORDS = [*semgen.BOUND_KEYS, *semgen.STR_KEYS, *semgen.ARR_KEYS]
 
@@ -80,10 +87,15 @@ def required_nullable_names(doc: dict) -> set:
     return out
 
 
-def error_class(err: str) -> str:
+def error_class(err: str, code: str = "") -> str:
     if "field constraints are set but not enforced" in err:
         return "unenforced_field_constraints"
     if "NameError" in err:
+        import re as _re
+
+        m = _re.search(r"name '([^']+)' is not defined", err)
+        if m and code and _re.search(rf"^class \w+\((?:[^)]*,\s*)?{_re.escape(m.group(1))}\s*[,)]", code, _re.M):
+            return "name_error_base_class"  # a subclass written before its base class
         return "name_error"
     if "not fully defined" in err or "not yet prepared" in err or "ForwardRef" in err:
         return "unresolved_forward_ref"
@@ -124,7 +136,7 @@ def eval_pair(task: tuple) -> dict:
             inp = {"doc": doc, "style": style, "option": name}
             v = semrun.build(doc, style, gopts, formatters=hopts.get("formatters"), target=hopts.get("target"))
             if not v.ok:
-                out["failures"].append(({**cls0, "oracle": "variant_not_built", "keyword": "none", "location": "none", "direction": "none", "error": error_class(v.error)}, inp, f"baseline builds, variant does not: {v.error[:300]}"))
+                out["failures"].append(({**cls0, "oracle": "variant_not_built", "keyword": "none", "location": "none", "direction": "none", "error": error_class(v.error, v.code)}, inp, f"baseline builds, variant does not: {v.error[:300]}"))
                 continue
             try:
                 for (inst, m), bv in zip(corpus, bvec):
